@@ -148,7 +148,7 @@ fn words_to_args(words: &[Value], vrec: &Path) -> Vec<OsString> {
             }
             "regextype" => a.push(OsString::from(w["name"].as_str().unwrap_or(""))),
             "fprint" => {
-                a.push(OsString::from("O/out"));
+                a.push(OsString::from(if w.get("full").and_then(|b| b.as_bool()).unwrap_or(false) { "/dev/full" } else { "O/out" }));
                 if w.get("arg").is_some() {
                     a.push(os(&json_to_bytes(&w["arg"])));
                 }
@@ -190,7 +190,11 @@ impl Prop for PCli {
         let before = snapshot(&dir.join("F"));
         let log = dir.parent().unwrap().join("vrec.log");
         let _ = std::fs::remove_file(&log);
-        let env = vec![("VREC_LOG".to_string(), log.to_string_lossy().into_owned())];
+        let mut env = vec![("VREC_LOG".to_string(), log.to_string_lossy().into_owned())];
+        // standard output on a device that is full: whatever is printed cannot be written - an error, never a panic
+        if input.get("outfull").and_then(|b| b.as_bool()).unwrap_or(false) {
+            env.push(("VH_STDOUT".to_string(), "/dev/full".to_string()));
+        }
         let r = run_find_bin_os(&dir, &args, None, &env, 20);
         let after = snapshot(&dir.join("F"));
         let execs = std::fs::read(&log).map(|c| c.iter().filter(|b| **b == b'\n').count()).unwrap_or(0);
@@ -255,7 +259,7 @@ impl Prop for PCli {
             let f = *rng.pick(&["%70000p\\n", "%-65536f|", "%65535d", "%65536s\\n", "%-99999y"]);
             words = vec![json!({"k": "prim", "prim": "-printf", "kind": "action", "okind": "printf", "arg": bytes_to_json(f.as_bytes())})];
         }
-        let mut v = json!({"words": words, "hazard": true, "form": rng.below(1000)});
+        let mut v = json!({"words": words, "hazard": true, "form": rng.below(1000), "outfull": short && rng.chance(1, 6)});
         if rng.chance(1, 4) {
             v["pre"] = json!([*rng.pick(&["-P", "-H", "-L", "-O2"])]);
         }
@@ -325,7 +329,12 @@ fn gen_prim(rng: &mut Rng, action: bool, last: bool) -> Value {
             4 | 5 => json!({"k": "prim", "prim": "-printf", "kind": "action", "okind": "printf",
                         "arg": b(pick_bytes(rng, &[b"%p\\n", b"%f %s %m %y\\0", b"%-10p|%5d\\n", b"%%x", b"%h/%f %l", b"%P %H %U %G %n %i %Y", b"%70000p\\n", b"%-65536f|", b"%65535d"],
                                             &[b"%", b"%5", b"%-", b"x%", b"\\", b"%z", b"\\q", b"%A", b"%-5", b"a\\", b"%TQ", b"%AE", b"%CO", b"%Ti", b"%TN\\n", b"%Ak%TJ", b"%T@ %TL"]))}),
-            6 => json!({"k": "prim", "prim": "-fprint", "kind": "action", "okind": "fprint"}),
+            // an output file (now and then one that cannot be written to: /dev/full)
+            6 => match rng.below(4) {
+                0 => json!({"k": "prim", "prim": "-fprintf", "kind": "action", "okind": "fprint", "arg": b(b"%p %s\\n".to_vec()), "full": rng.chance(1, 2)}),
+                1 => json!({"k": "prim", "prim": *rng.pick(&["-fprint0", "-fls"]), "kind": "action", "okind": "fprint", "full": rng.chance(1, 2)}),
+                _ => json!({"k": "prim", "prim": "-fprint", "kind": "action", "okind": "fprint", "full": rng.chance(1, 3)}),
+            },
             _ => {
                 let shapes: [&[&str]; 12] = [&["cmd", "{}", ";"], &["cmd", "{}", "+"], &["cmd", "w", "{}", ";"], &["cmd", ";"], &["cmd", "x{}", ";"],
                     &["cmd", "{}"], &["cmd"], &[";"], &["cmd", "{}", "{}", "+"], &["cmd", "w", "+"], &["cmd", "{}", "w", "+"], &[]];
